@@ -5,8 +5,9 @@ import common
 from harness import refprims
 
 
-def model_eval(requests, resolver=None, max_rounds=16):
-    """requests: list[str]. Returns list[str] of final answers (`ok …` / `err Class` / `bad-op`)."""
+def model_eval(requests, resolver=None, max_rounds=16, resolvers=None):
+    """requests: list[str]. Returns list[str] of final answers (`ok …` / `err Class` / `bad-op`).
+    resolvers: optional per-request oracle functions (else `resolver`, else the reference primitives)."""
     resolver = resolver or refprims.answer
     tables = [dict() for _ in requests]
     answers = [None] * len(requests)
@@ -23,7 +24,7 @@ def model_eval(requests, resolver=None, max_rounds=16):
         for i, o in zip(pending, outs):
             if o.startswith("err NEED "):
                 q = o[len("err NEED "):]
-                tables[i][q] = resolver(q)
+                tables[i][q] = (resolvers[i] if resolvers else resolver)(q)
                 nxt.append(i)
             else:
                 answers[i] = o
